@@ -232,6 +232,11 @@ func (p *ProofD) correctResponseSizes(pk *gabikeys.PublicKey) bool {
 // not disclosed. Without this a holder could split an attribute into a disclosed part and a
 // hidden remainder, and have a value accepted that the issuer never signed.
 func (p *ProofD) validAttributeIndices(pk *gabikeys.PublicKey) bool {
+	// The secret key (index 0) is always hidden, so its response must be present: the proof list
+	// verification compares these responses across proofs.
+	if p.AResponses[0] == nil {
+		return false
+	}
 	for i, response := range p.AResponses {
 		if i < 0 || i >= len(pk.R) || response == nil {
 			return false
